@@ -507,3 +507,126 @@ var rPrefixCut = &Rule{
 		c.Min("registered encoders", n, 20)
 	},
 }
+
+// ---------------------------------------------------------------------------
+// R-ISANY-NIL
+
+var rIsAnyNil = &Rule{
+	Name: "R-ISANY-NIL",
+	Doc: "IsAny answers 'some reference is nil' for a nil ERROR at the top level only: every recursive call of markers.IsAny (in IsAny and its helpers) on a branch of a multi-cause error is made under the test that the branch is non-nil. " +
+		"A foreign multi-cause error may list a nil branch; recursing into it runs the nil-error shortcut, so IsAny(e, nil, r) is true while Is(e, nil) and Is(e, r) are both false - IsAny is no longer the disjunction of Is",
+	Run: func(c *core.Ctx) {
+		p := c.P
+		fn := p.Func("markers", "IsAny")
+		if fn == nil {
+			c.InternalErr("markers.IsAny", "anchor function not found")
+			return
+		}
+		reg := regionOf(fn)
+		n := 0
+		reg.each(func(in ssa.Instruction) {
+			call, ok := in.(*ssa.Call)
+			if !ok || sx.Callee(call) != fn || len(call.Call.Args) == 0 {
+				return
+			}
+			arg := identity(call.Call.Args[0])
+			// an element of a list of branches
+			ld, isLd := arg.(*ssa.UnOp)
+			if !isLd || ld.Op != token.MUL {
+				return
+			}
+			if _, isIA := ld.X.(*ssa.IndexAddr); !isIA {
+				return
+			}
+			n++
+			guarded := false
+			for _, l := range reg.lits(call.Block()) {
+				bin, isBin := l.V.(*ssa.BinOp)
+				if !isBin {
+					continue
+				}
+				if !((bin.X == ssa.Value(ld) && sx.IsNil(bin.Y)) || (bin.Y == ssa.Value(ld) && sx.IsNil(bin.X))) {
+					continue
+				}
+				if (bin.Op == token.NEQ && !l.Neg) || (bin.Op == token.EQL && l.Neg) {
+					guarded = true
+				}
+			}
+			c.Check(guarded, "markers.IsAny: recursion into a branch", call.Pos(), "only for a non-nil branch",
+				"IsAny recurses into every branch a multi-cause error lists, a nil one included: the recursive call then answers the question for a nil error ('is some reference nil?'), so IsAny(e, nil, r) is true for an error e whose Unwrap() []error contains a nil, while Is(e, nil) and Is(e, r) are false")
+		})
+		c.Min("recursive calls of IsAny on branches", n, 1)
+	},
+}
+
+// ---------------------------------------------------------------------------
+// R-REGISTRY-CLOSURE
+
+var rRegistryClosure = &Rule{
+	Name: "R-REGISTRY-CLOSURE",
+	Doc: "an adapter closure put into a codec registry never wraps a nil function: in errbase's Register* functions, a function literal that calls a captured function-typed parameter is created only where that parameter is known non-nil. " +
+		"Register*(key, nil) is the documented way to unregister; an adapter around the nil function is itself non-nil, stays registered and panics at the next EncodeError of that type",
+	Run: func(c *core.Ctx) {
+		p := c.P
+		n := 0
+		for _, fn := range p.HandFuncs() {
+			if fn.Pkg == nil || !strings.HasSuffix(fn.Pkg.Pkg.Path(), "/errbase") || !strings.HasPrefix(fn.Name(), "Register") {
+				continue
+			}
+			sx.EachInstr(fn, func(in ssa.Instruction) {
+				mc, ok := in.(*ssa.MakeClosure)
+				if !ok {
+					return
+				}
+				for _, b := range mc.Bindings {
+					// the captured cell of a function-typed parameter
+					var prm *ssa.Parameter
+					switch x := b.(type) {
+					case *ssa.Parameter:
+						prm = x
+					case *ssa.Alloc:
+						for _, r := range *x.Referrers() {
+							if st, isSt := r.(*ssa.Store); isSt && st.Addr == ssa.Value(x) {
+								if q, isP := st.Val.(*ssa.Parameter); isP {
+									prm = q
+								}
+							}
+						}
+					}
+					if prm == nil {
+						continue
+					}
+					if _, isFn := types.Unalias(prm.Type()).Underlying().(*types.Signature); !isFn {
+						continue
+					}
+					n++
+					guarded := false
+					for _, l := range dominatingLits(mc.Block()) {
+						bin, isBin := l.V.(*ssa.BinOp)
+						if !isBin {
+							continue
+						}
+						operand := func(v ssa.Value) bool {
+							if v == ssa.Value(prm) {
+								return true
+							}
+							if ld, isLd := v.(*ssa.UnOp); isLd && ld.Op == token.MUL && ld.X == b {
+								return true
+							}
+							return false
+						}
+						if !((operand(bin.X) && sx.IsNil(bin.Y)) || (operand(bin.Y) && sx.IsNil(bin.X))) {
+							continue
+						}
+						if (bin.Op == token.NEQ && !l.Neg) || (bin.Op == token.EQL && l.Neg) {
+							guarded = true
+						}
+					}
+					c.Check(guarded, load.FnName(fn)+": adapter around "+prm.Name(), mc.Pos(), "created only for a non-nil function",
+						"the adapter closure that "+load.FnName(fn)+" registers calls its parameter "+prm.Name()+" without that parameter having been tested: "+load.FnName(fn)+"(key, nil) - the documented way to unregister - leaves a non-nil adapter in the registry, and the next encoding of an error of that type panics on the nil function")
+				}
+			})
+		}
+		c.Min("adapter closures in the Register* functions", n, 1)
+	},
+}
